@@ -120,6 +120,16 @@ func (r *Report) modelInputs(e *Enc, ob *Obligation) (map[string]interface{}, ma
 		out, ok = try(medium)
 	}
 	if !ok {
+		var large []string
+		for _, in := range e.inputs {
+			if in.Kind == "bytes" || in.Kind == "string" {
+				large = append(large, fmt.Sprintf("(assert (bvule %s #x0000000000001000))", in.Len), fmt.Sprintf("(assert (bvule %s #x0000000000002000))", in.Cap),
+					fmt.Sprintf("(assert (bvule %s #x0000000000001000))", in.Off))
+			}
+		}
+		out, ok = try(large)
+	}
+	if !ok {
 		out, ok = try(nil)
 		if !ok {
 			return nil, nil, nil
@@ -582,6 +592,22 @@ func (h *harnessGen) generate(ob *Obligation, mb map[string]*modelBytes, scal ma
 				fmt.Fprintf(&body, "\t%s = %s(%d)\n", lhs, h.typeStr(ty), sv)
 			} else {
 				fmt.Fprintf(&body, "\t%s = %s(%d)\n", lhs, h.typeStr(ty), v)
+			}
+		}
+	}
+	// configuration floats: choose RetentionDays so that the real
+	// RetentionDuration() is (close to) the value the model gave the
+	// uninterpreted function
+	for n, v := range scal {
+		if strings.HasPrefix(n, "uf:") && strings.HasSuffix(n, "RetentionDuration") {
+			for _, p := range fn.Params {
+				if st, ok := p.Type().Underlying().(*types.Struct); ok {
+					for i := 0; i < st.NumFields(); i++ {
+						if st.Field(i).Name() == "RetentionDays" {
+							fmt.Fprintf(&body, "\tp_%s.RetentionDays = float32(float64(int64(%d)) / float64(24*3600*1000000000))\n", p.Name(), int64(v))
+						}
+					}
+				}
 			}
 		}
 	}
